@@ -894,6 +894,16 @@ class Assembler:
                     hits_ = [i_ for i_ in hits_ if has_(i_)]
                 if lp.get('n', 0) >= len(hits_):
                     hits_ = []
+                if not hits_ and len(loops) >= len(spec.get('loop', [])):
+                    # no loop reads like that, but the function still has as many loops as it has loop contracts: the HEADER
+                    # changed (a renamed loop variable, `for` turned into `while let`, ..), no loop was deleted.  The contract
+                    # goes to the loop at its ordinal position, as before headers were used: a harmless rename then still verifies
+                    # or stops at a name that no longer exists (undecided) -- it must not become a violation by losing its
+                    # invariant
+                    pos_ = [i2_ for i2_, l2_ in enumerate(spec.get('loop', [])) if l2_ is lp or l2_ == lp]
+                    if pos_ and pos_[0] < len(loops):
+                        hits_ = [pos_[0]]
+                        lp = dict(lp, n=0)
                 if not hits_:
                     if lp.get('optional'):
                         self.dropped_closure_contracts.append('%s: loop contract for `%s` (no such loop)' % (fnname, lp['head']))
